@@ -4,31 +4,39 @@
 (* into lines so that TLC can index it and 16 workers can share it:                            *)
 (*   line 1            {"op":"hdr", "n": V}                                                     *)
 (*   lines 2 .. V+1    {"op":"val", "id": i, "desc": <descriptor of x_i as in Eq.tla>}         *)
+(*                     the CONCRETE descriptor of the object as it was built: insertion order  *)
+(*                     of its dicts, views into shared buffers (Eq!Norm gives the value)       *)
 (*   next V*V lines    {"op":"eq", "i": i, "j": j, "out": "T" | "F" | "exc:<class>" | "other:<type>"}   *)
 (*                     in row-major order, so that Cell(i, j) is a direct index                *)
 (*   then              {"op":"in", "i": i, "seq": <<j1, ..>>, "out": ..}   in_(x_i, [x_j1, ..]) *)
 (* Verdict of an "eq" line (i, j): the axioms of the statement as far as they involve the cell *)
-(* - boolean, reflexive on structural copies, symmetric (against the mirrored cell),           *)
+(* - boolean, reflexive on structural copies and on other realisations of the same value       *)
+(* (another insertion order of a dict, other memory: "other_realisation_unequal"), symmetric    *)
+(* (against the mirrored cell),                                                                 *)
 (* transitive (against every third value k), and equal to what the statement pins - joined     *)
 (* with "+" when several clauses fail; a transitivity failure carries its first witness k;    *)
 (* after "@" the place where the two descriptors first differ (Eq!At), for the reports.        *)
 EXTENDS Eq, Batch
 
 NV         == Obs[1].n
-Desc(i)    == Obs[1 + i].desc
+Desc(i)    == Obs[1 + i].desc                 \* the realisation
+ValueOf    == [i \in 1..NV |-> Norm(Obs[1 + i].desc)]
+Val(i)     == ValueOf[i]                       \* the value it denotes
 Cell(i, j) == Obs[1 + NV + (i - 1) * NV + j].out
 
 Min(S) == CHOOSE a \in S : \A b \in S : a <= b
 
 CellVerdict(o) ==
     LET i == o.i  j == o.j  m == o.out  r == Cell(j, i)
-        dx == Desc(i)  dy == Desc(j)
+        dx == Val(i)  dy == Val(j)
         \* k with eq(x_i, x_j), eq(x_j, x_k) but not eq(x_i, x_k)
         W == IF m = "T" THEN {k \in 1..NV : Cell(j, k) = "T" /\ Cell(i, k) = "F"} ELSE {}
         cl == (IF ~IsB(m) THEN "+not_boolean" ELSE "")
            \o (IF m = "T" /\ r = "F" THEN "+asymmetric" ELSE "")
            \o (IF W # {} THEN "+intransitive:" \o ToString(Min(W)) ELSE "")
-           \o (IF m = "F" /\ ClauseIfF(dx, dy) # "" THEN "+" \o ClauseIfF(dx, dy) ELSE "")
+           \o (IF m = "F" /\ ClauseIfF(dx, dy) # ""
+               THEN "+" \o (IF ClauseIfF(dx, dy) = "copy_unequal" /\ ~SameRealisation(Desc(i), Desc(j)) THEN "other_realisation_unequal" ELSE ClauseIfF(dx, dy))
+               ELSE "")
            \o (IF m = "T" /\ ClauseIfT(dx, dy) # "" THEN "+" \o ClauseIfT(dx, dy) ELSE "")
     IN  IF cl = "" THEN "" ELSE cl \o "@" \o At(dx, dy)
 
@@ -47,7 +55,7 @@ WellFormed(o) == o.id + 1 <= Len(Obs) /\ Obs[1 + o.id] = o
 
 Verdict(o) ==
     CASE o.op = "hdr" -> IF Len(Obs) >= 1 + o.n + o.n * o.n THEN "" ELSE "+short_log"
-      [] o.op = "val" -> IF WellFormed(o) THEN "" ELSE "+misplaced_value"
+      [] o.op = "val" -> IF ~WellFormed(o) THEN "+misplaced_value" ELSE IF ~ConcreteOK(o.desc) THEN "+bad_descriptor" ELSE ""
       [] o.op = "eq"  -> IF Obs[1 + NV + (o.i - 1) * NV + o.j] = o THEN CellVerdict(o) ELSE "+misplaced_cell"
       [] o.op = "in"  -> InVerdict(o)
       [] OTHER -> "+unknown_op"
